@@ -24,8 +24,17 @@ public:
     static status assign_thread_info(Token& token) {
         for (auto&& elem : thread_info_table_) {
             if (elem.gain_the_right()) {
-                YK_VP(k_epoch_load, &elem, 0, 0);
-                elem.set_begin_epoch(epoch_management::get_epoch());
+                for (;;) {
+                    // Publish the begin epoch, then make sure the global epoch did not move
+                    // between its load and the store: a session that advertises a stale
+                    // epoch lets the gc epoch run ahead of it.
+                    YK_VP(k_epoch_load, &elem, 0, 0);
+                    Epoch ep = epoch_management::get_epoch();
+                    elem.set_begin_epoch(ep);
+                    std::atomic_thread_fence(std::memory_order_seq_cst);
+                    YK_VP(k_epoch_load, &elem, 1, 0);
+                    if (ep == epoch_management::get_epoch()) { break; }
+                }
                 token = &(elem);
                 return status::OK;
             }
